@@ -618,6 +618,32 @@ fn heavy_inputs(reps: usize) -> Vec<(usize, Vec<u8>)> {
             v.push((ep_index(ep), rep(t)));
         }
     }
+    // multi-byte straddles: for every byte offset up to the string's length some member has a
+    // multi-byte character across it, so any byte-indexed cut, excerpt or buffer boundary inside
+    // these inputs lands inside a character for one of them
+    for bytes in if reps > 50_000 { vec![200usize, 70_000, 1_200_000] } else { vec![200usize, 70_000] } {
+        for sv in mc_core::chars::straddles(bytes) {
+            let shapes: Vec<(&str, Vec<String>)> = vec![
+                ("pattern", vec![format!("p-{}", sv), format!("p>={}", sv), format!("{}-1.0", sv), sv.clone(), format!("p-[{}]*", sv), format!("{{a,{}}}-1", sv), format!("{}>=1<2", sv)]),
+                ("dewey", vec![format!("p-{}", sv), format!("p>={}", sv), format!("1.{}", sv)]),
+                ("pkgname", vec![format!("p-{}", sv), format!("{}-1.0nb1", sv), sv.clone()]),
+                ("pkgpath+depend", vec![sv.clone(), format!("cat/{}", sv), format!("{}/pkg", sv), format!("../../cat/{}", sv), format!("p>=1:../../cat/{}", sv), format!("{}:../../cat/p", sv)]),
+                ("summary", vec![sv.clone(), format!("{}=x", sv), format!("COMMENT={}", sv), format!("FILE_SIZE={}", sv), format!("PKGNAME=a-1\n{}\nCOMMENT=c", sv), format!("=={}", sv)]),
+                ("summary-stream", vec![format!("{}\n\n", sv), format!("COMMENT={}\n\n", sv), format!("{}=x\n\n", sv), sv.clone()]),
+                ("plist", vec![sv.clone(), format!("@{}", sv), format!("@cwd {}", sv), format!("@name {}", sv), format!("@mode {}", sv), format!("@comment{} x", sv), format!("bin/x\n@pkgdep {}\n", sv)]),
+                ("distinfo", vec![format!("SHA1 ({}) = h\n", sv), format!("{} (f) = h\n", sv), format!("SHA1 (f) = {}\n", sv), format!("Size (f) = {} bytes\n", sv), sv.clone(), format!("$NetBSD: {} $\n", sv)]),
+                ("scanindex", vec![format!("PKGNAME={}\n", sv), format!("{}=x\n", sv), format!("PKGNAME=a-1\nALL_DEPENDS={}\n", sv), format!("PKGNAME=a-1\nPKG_LOCATION={}\n", sv), format!("PKGNAME=a-1\nMULTI_VERSION={}\n", sv), sv.clone()]),
+                ("digest-name", vec![sv.clone()]),
+                ("metadata", vec![sv.clone(), format!("1{}", sv)]),
+                ("failing-readers", vec![sv.clone(), format!("PKGNAME={}\n", sv)]),
+            ];
+            for (ep, texts) in shapes {
+                for x in texts {
+                    v.push((ep_index(ep), x.into_bytes()));
+                }
+            }
+        }
+    }
     // a long complete stream: many entries
     let entry = include_str!("../../seeds/summary.seed");
     v.push((ep_index("summary-stream"), format!("{}\n", entry).repeat(reps / 50).into_bytes()));
